@@ -362,8 +362,9 @@ def applyAct (s : State) (fh fw : List Nat) : Act → State
         | some v =>
           if ob.strong ≠ .cnt 1 then
             -- clone the data into a fresh allocation, then `*this = rc` drops the old handle
-            let v' : Val := { v with vid := s.nextVid }
-            let s1 := (s.cloneHandles v).alloc v'
+            let v' : Val := if v.shallow then { v with vid := s.nextVid, held := [], weaks := [] }
+                            else { v with vid := s.nextVid }
+            let s1 := (if v.shallow then s else s.cloneHandles v).alloc v'
             ({ s1 with roots := s1.roots.set (idxMod s.roots r) s.heap.length, nextVid := s.nextVid + 1 }.emit (.ret 2)).push [.rcDrop o]
           else if ob.weak ≠ 1 then
             -- steal: move the value to a fresh allocation, give the old one up to its Weaks
@@ -423,6 +424,10 @@ def applyAct (s : State) (fh fw : List Nat) : Act → State
   | .setPanic q =>
     match s.useRoot q with
     | some o => s.modVal o (fun v => { v with panics := true })
+    | none => s.badRoot q
+  | .setShallow q =>
+    match s.useRoot q with
+    | some o => s.modVal o (fun v => { v with shallow := true })
     | none => s.badRoot q
   | .upgradeField k =>
     match nthMod fw k with
